@@ -486,6 +486,12 @@ Section RemoveFields.
 End RemoveFields.
 
 (* ---- remove: the child lists afterwards ---- *)
+Lemma NoDup_app_parts (a b : list nat) : NoDup (a ++ b) -> NoDup a /\ NoDup b.
+Proof.
+  induction a as [|x t IH]; simpl; intro H; [split; [constructor|exact H]|].
+  inversion H; subst. destruct (IH H3) as [A B]. split; [|exact B].
+  constructor; [|exact A]. intro Hx. apply H2. rewrite in_app_iff. left; exact Hx.
+Qed.
 Lemma last_or_In b pv x : last_or b pv = Some x -> b <> [] -> In x b.
 Proof.
   intros E Hb. destruct b as [|y t]; [congruence|]. unfold last_or in E. injection E as <-.
@@ -566,8 +572,7 @@ Section RemoveChildren.
     destruct rm_seg as (S1 & Rc & Pc & Ep & En & S2). destruct rm_nodup as (Na & Nb & Nab & ND').
     pose proof rm_pv as Hpv. pose proof rm_nx as Hnx.
     pose proof (fun x => Children_member h s _ x HC) as Mem.
-    assert (NDa : NoDup a) by (apply NoDup_app_remove_r in ND'; exact ND').
-    assert (NDb : NoDup b) by (apply NoDup_app_remove_l in ND'; exact ND').
+    destruct (NoDup_app_parts _ _ ND') as [NDa NDb].
     destruct HC as (HF & HL & HCh & HND & HAll).
     rewrite remove_heap_rh5. unfold Children.
     rewrite remove_first, remove_last by assumption. destruct (Nat.eq_dec s s) as [_|]; [|congruence].
